@@ -20,8 +20,8 @@ ASSUMPTIONS = ['tolerance 1e-6 N for ODE outputs (rounding differs with summatio
 BUDGET = {'quick': 170, 'thorough': 1500}
 CHUNK = {'quick': 10, 'thorough': 40}
 CASE_TIMEOUT = 300
-REQUIRED = ['ode_pairs_compared', 'node_level_outputs_mapped', 'sim_pairs_compared', 'permuted_nodelists'] + ['entry:' + e for e in GRAPH_ENTRIES + SIMS]
-SCHEMES = ['perm', 'neg', 'str', 'tuple', 'mixed', 'offset']
+REQUIRED = ['sim_pairs_with_lattice_rules', 'ode_pairs_compared', 'node_level_outputs_mapped', 'sim_pairs_compared', 'permuted_nodelists'] + ['entry:' + e for e in GRAPH_ENTRIES + SIMS]
+SCHEMES = ['perm', 'neg', 'str', 'tuple', 'mixed', 'offset', 'nested']
 
 
 def gen_cases(tier, seed):
@@ -58,9 +58,15 @@ def gen_cases(tier, seed):
         c['tmax'] = c['tmin'] + r.choice([2.0, 5.0]) if c['sim'] != 'discrete_SIR' else c['tmin'] + r.choice([2, 6])
         c['dur'] = [round(r.uniform(0.2, 2.5), 6) for _ in range(nn)]
         c['delay'] = {}
+        # a share of the rules is integer-valued (generation times on a lattice): simultaneous events, transmissions landing exactly on a
+        # recovery time.  Which of several simultaneous events is handled first follows queue insertion order, i.e. the iteration order of
+        # the graph - the per-node histories must not depend on it
+        c['lattice'] = (j // len(SIMS)) % 3 == 2
+        if c['lattice']:
+            c['dur'] = [r.choice([1, 2, 3]) for _ in range(nn)]
         for (u, v) in desc['edges']:
-            c['delay']['%d,%d' % (u, v)] = round(r.uniform(0, 3), 6)
-            c['delay']['%d,%d' % (v, u)] = round(r.uniform(0, 3), 6)
+            c['delay']['%d,%d' % (u, v)] = round(r.uniform(0, 3), 6) if not c['lattice'] else r.choice([0, 1, 2, 3, 4])
+            c['delay']['%d,%d' % (v, u)] = round(r.uniform(0, 3), 6) if not c['lattice'] else r.choice([0, 1, 2, 3, 4])
         out.append(c)
     return out
 
@@ -186,10 +192,14 @@ def _sim_hist(case):
         def rtf(u):
             i = idx[u]
             occ[i] = occ.get(i, 0) + 1
+            if case.get('lattice'):
+                return 1 + int(3 * c13._u(case['seed'], 'd', i, occ[i] - 1))
             return c13.table_duration(case['seed'], i, occ[i] - 1)
 
         def ttf(u, v, d):
             i = idx[u]
+            if case.get('lattice'):
+                return [k for k in (1, 2, 3, 4) if c13._u(case['seed'], 'v', i, idx[v], occ[i] - 1, k) < 0.45]
             return c13.table_delays(case['seed'], case['profile'], i, idx[v], occ[i] - 1, d)
         out = EoN.fast_nonMarkov_SIS(G, trans_time_fxn=ttf, rec_time_fxn=rtf, initial_infecteds=I0, tmin=case['tmin'], tmax=case['tmax'], return_full_data=True)
     else:
@@ -219,10 +229,12 @@ def run_sim(case, res):
         viol(res, '%s|labels=%s|exception:%s' % (name, case['scheme'], simcase.exc_key(e)), {'err': repr(e)[:200]})
         return
     bump(res, 'sim_pairs_compared')
+    if case.get('lattice'):
+        bump(res, 'sim_pairs_with_lattice_rules')
     if ha != hb:
         bad = [i for i in ha if ha[i] != hb[i]][:1]
         viol(res, '%s|labels=%s|history_changes_under_relabelling' % (name, case['scheme']), {'node': bad, 'base': ha[bad[0]], 'relabelled': hb[bad[0]], 'graph': case['graph']})
-    elif ta != tb and name != 'discrete_SIR':
+    elif ta != tb and name != 'discrete_SIR' and not case.get('lattice'):      # with simultaneous events the recorded infector may legitimately differ
         viol(res, '%s|labels=%s|transmissions_change_under_relabelling' % (name, case['scheme']), {'base': ta[:4], 'relabelled': tb[:4]})
     if any(len(h[0]) > 1 for i, h in ha.items() if i not in case['I0']):
         res['nontrivial'] = '%s:%s:%s' % (name, case['scheme'], gen.iso_key(case['graph']))
